@@ -73,6 +73,14 @@ def fault_list(d):
             for foreign in (ct + ["undeclared_q"]):
                 F.append(("sensor-model", f"{key}.{rn} depends on {foreign}", "ekf",
                           lambda r, key=key, rn=rn, f=foreign: r["sensor_models"][key].__setitem__(rn, r["sensor_models"][key][rn] + Sy(f))))
+            # two foreign symbols in ONE reading (a control and an undeclared symbol; two undeclared symbols; two controls)
+            combos = [((ct[0] if ct else "undeclared_r"), "undeclared_q"), ("undeclared_q", "undeclared_r")]
+            if len(ct) >= 2:
+                combos.append((ct[0], ct[1]))
+            for f1, f2 in combos:
+                F.append(("sensor-model", f"{key}.{rn} depends on {f1} and {f2}", "ekf",
+                          lambda r, key=key, rn=rn, f1=f1, f2=f2: r["sensor_models"][key].__setitem__(
+                              rn, r["sensor_models"][key][rn] + Sy(f1) * Sy(f2))))
     # 6. sensor noise
     for key, rs in d["sensors"]:
         F.append(("sensor-noise", f"noise of sensor {key} dropped", "ekf", lambda r, key=key: r["sensor_noises"].pop(key)))
